@@ -488,4 +488,153 @@ theorem step_keeps (pool : List DS) (op : Op) (i : Nat) (hi : i < pool.length)
     simp only [step]
     cases (pool[src]?).bind DS.tensorFrame <;> rfl
 
+theorem step_length_le (pool : List DS) (op : Op) : pool.length ≤ (step pool op).1.length := by
+  have happ : ∀ r, pool.length ≤ (derive pool r).1.length := by
+    intro r; unfold derive
+    cases r with
+    | none => exact Nat.le_refl _
+    | some ds => simp
+  cases op with
+  | materialize src =>
+    simp only [step]
+    cases pool[src]? with
+    | none => exact Nat.le_refl _
+    | some d =>
+      simp only
+      cases d.materialize with
+      | none => exact Nat.le_refl _
+      | some d' => simp
+  | select src ix => exact happ _
+  | shuffle src perm => exact happ _
+  | getSplit src name => exact happ _
+  | split src => exact happ _
+  | colSelect src cs => exact happ _
+  | tensorFrame src =>
+    simp only [step]
+    cases (pool[src]?).bind DS.tensorFrame <;> exact Nat.le_refl _
+
+/-- a materialized dataset is never changed by any step (re-materializing is the identity) -/
+theorem step_keeps_materialized (pool : List DS) (op : Op) (i : Nat) (d : DS)
+    (hd : pool[i]? = some d) (hm : d.materialized = true) : (step pool op).1[i]? = some d := by
+  have hi : i < pool.length := by
+    rcases Nat.lt_or_ge i pool.length with h | h
+    · exact h
+    · rw [List.getElem?_eq_none h] at hd; cases hd
+  by_cases hne : op.mutates = some i
+  · cases op with
+    | materialize src =>
+      simp only [Op.mutates, Option.some.injEq] at hne
+      subst hne
+      have hmat : d.materialize = some d := by unfold DS.materialize; simp [hm]
+      simp only [step, hd, hmat]
+      rw [List.getElem?_set_self hi]
+    | select src ix => simp [Op.mutates] at hne
+    | shuffle src perm => simp [Op.mutates] at hne
+    | getSplit src name => simp [Op.mutates] at hne
+    | split src => simp [Op.mutates] at hne
+    | colSelect src cs => simp [Op.mutates] at hne
+    | tensorFrame src => simp [Op.mutates] at hne
+  · rw [step_keeps pool op i hi hne, hd]
+
+theorem run_keeps_materialized : ∀ (ops : List Op) (pool : List DS) (i : Nat) (d : DS),
+    pool[i]? = some d → d.materialized = true → (run ops pool).1[i]? = some d
+  | [], _, _, _, hd, _ => hd
+  | op :: ops, pool, i, d, hd, hm => by
+    simp only [run]
+    exact run_keeps_materialized ops _ i d (step_keeps_materialized pool op i d hd hm) hm
+
+/-- the DataFrame of an existing dataset is never changed by a step -/
+theorem step_keeps_df (pool : List DS) (op : Op) (i : Nat) (d : DS) (hd : pool[i]? = some d) :
+    ∃ d', (step pool op).1[i]? = some d' ∧ d'.df = d.df ∧ d'.cols = d.cols := by
+  have hi : i < pool.length := by
+    rcases Nat.lt_or_ge i pool.length with h | h
+    · exact h
+    · rw [List.getElem?_eq_none h] at hd; cases hd
+  by_cases hne : op.mutates = some i
+  · cases op with
+    | materialize src =>
+      simp only [Op.mutates, Option.some.injEq] at hne
+      subst hne
+      simp only [step, hd]
+      cases hmat : d.materialize with
+      | none => exact ⟨d, hd, rfl, rfl⟩
+      | some d' =>
+        refine ⟨d', ?_, ?_, ?_⟩
+        · simp only; rw [List.getElem?_set_self hi]
+        · unfold DS.materialize at hmat
+          split at hmat
+          · cases hmat; rfl
+          · split at hmat
+            · cases hmat
+            · cases hmat; rfl
+        · unfold DS.materialize at hmat
+          split at hmat
+          · cases hmat; rfl
+          · split at hmat
+            · cases hmat
+            · cases hmat; rfl
+    | select src ix => simp [Op.mutates] at hne
+    | shuffle src perm => simp [Op.mutates] at hne
+    | getSplit src name => simp [Op.mutates] at hne
+    | split src => simp [Op.mutates] at hne
+    | colSelect src cs => simp [Op.mutates] at hne
+    | tensorFrame src => simp [Op.mutates] at hne
+  · exact ⟨d, by rw [step_keeps pool op i hi hne, hd], rfl, rfl⟩
+
+theorem run_keeps_df : ∀ (ops : List Op) (pool : List DS) (i : Nat) (d : DS),
+    pool[i]? = some d → ∃ d', (run ops pool).1[i]? = some d' ∧ d'.df = d.df ∧ d'.cols = d.cols
+  | [], _, _, d, hd => ⟨d, hd, rfl, rfl⟩
+  | op :: ops, pool, i, d, hd => by
+    simp only [run]
+    obtain ⟨d1, h1, e1, c1⟩ := step_keeps_df pool op i d hd
+    obtain ⟨d2, h2, e2, c2⟩ := run_keeps_df ops _ i d1 h1
+    exact ⟨d2, h2, e2.trans e1, c2.trans c1⟩
+
 end TFVerif.Dataset
+
+/-! ### split generator -/
+
+namespace TFVerif.Split
+
+open TFVerif.Dataset (pick pick_perm)
+
+theorem arrange_eq_pick (arr perm : List Nat) : arrange arr perm = pick arr perm := rfl
+
+theorem floorMul_spec (n : Nat) (r : Ratio) (hq : 0 < r.q) (hp : 0 ≤ r.p) :
+    (floorMul n r : Int) * r.q ≤ n * r.p ∧ (n : Int) * r.p < ((floorMul n r : Int) + 1) * r.q := by
+  have hq' : (0 : Int) < r.q := by exact_mod_cast hq
+  have hnp : (0 : Int) ≤ n * r.p := Int.mul_nonneg (Int.natCast_nonneg n) hp
+  have hdiv : (0 : Int) ≤ (n : Int) * r.p / r.q := Int.ediv_nonneg hnp (Int.le_of_lt hq')
+  unfold floorMul
+  rw [Int.toNat_of_nonneg hdiv]
+  exact ⟨Int.ediv_mul_le _ (Int.ne_of_gt hq'), Int.lt_ediv_add_one_mul_self _ hq'⟩
+
+theorem floor_sum_le (n : Nat) (a b : Ratio) (hqa : 0 < a.q) (hqb : 0 < b.q) (hpa : 0 ≤ a.p) (hpb : 0 ≤ b.p)
+    (hlt : a.p * b.q + b.p * a.q ≤ (a.q : Int) * b.q) : floorMul n a + floorMul n b ≤ n := by
+  obtain ⟨ha, _⟩ := floorMul_spec n a hqa hpa
+  obtain ⟨hb, _⟩ := floorMul_spec n b hqb hpb
+  have hqa' : (0 : Int) < a.q := by exact_mod_cast hqa
+  have hqb' : (0 : Int) < b.q := by exact_mod_cast hqb
+  have hn : (0 : Int) ≤ n := Int.natCast_nonneg n
+  by_contra hcon
+  have hcon' : (n : Int) + 1 ≤ (floorMul n a : Int) + (floorMul n b : Int) := by omega
+  have h1 : (floorMul n a : Int) * a.q * b.q ≤ n * a.p * b.q := mul_le_mul_of_nonneg_right ha hqb'.le
+  have h2 : (floorMul n b : Int) * b.q * a.q ≤ n * b.p * a.q := mul_le_mul_of_nonneg_right hb hqa'.le
+  have h3 : (n : Int) * (a.p * b.q + b.p * a.q) ≤ n * ((a.q : Int) * b.q) := mul_le_mul_of_nonneg_left hlt hn
+  have h4 : ((n : Int) + 1) * ((a.q : Int) * b.q) ≤ ((floorMul n a : Int) + floorMul n b) * ((a.q : Int) * b.q) :=
+    mul_le_mul_of_nonneg_right hcon' (mul_pos hqa' hqb').le
+  have h5 : (0 : Int) < (a.q : Int) * b.q := mul_pos hqa' hqb'
+  nlinarith
+
+theorem count_blocks (t v te : Nat) :
+    (blocks (t, v, te)).count 0 = t ∧ (blocks (t, v, te)).count 1 = v ∧ (blocks (t, v, te)).count 2 = te ∧
+    (blocks (t, v, te)).length = t + v + te := by
+  have e0 : num "train" = 0 := by decide
+  have e1 : num "val" = 1 := by decide
+  have e2 : num "test" = 2 := by decide
+  unfold blocks
+  simp only [e0, e1, e2, List.count_append, List.count_replicate, List.length_append, List.length_replicate]
+  simp
+
+end TFVerif.Split
+
